@@ -672,8 +672,23 @@ func boundary() []cCase {
 	cs = append(cs, cCase{Family: "default-window-20min", WindowMs: 1200000, MinConf: 1, Ws: condLog, Ops: cat([]cOp{
 		acc(0, 10), acc(1, 10), sl(600 * sec), evs(2, ev(1, 1, 1, 10, 12, 1)), sl(2100 * ms), sl(600 * sec), tr(0, 10), acc(0, 9)},
 		allFilters(cItem{0, 10}, cItem{1, 12}), []cOp{sl(600 * sec)}, allFilters(cItem{0, 10}, cItem{1, 12}))})
-	// report level through a plug-in instance (any-of)
 	three := []cWid{{Type: 0, N: 1}, {Type: 1, N: 2}, {Type: 0, N: 3}}
+	// the poller sees a confirmed event BEFORE the report is accepted (no record yet: ignored); the
+	// provider keeps returning it, so the polls after the acceptance must apply it
+	for _, mc := range []int{0, 1, 3} {
+		for _, typ := range []int{1, 2, 3, 4, 0} {
+			batch := []cEvent{ev(0, 1, typ, 10, 12, int64(mc)), ev(1, 2, typ, 10, 12, int64(mc)+2), ev(2, 3, typ, 10, 12, int64(mc)-1)}
+			cs = append(cs, cCase{Family: fmt.Sprintf("event-polled-before-accept-type-%d-minconf-%d", typ, mc), WindowMs: W, MinConf: mc, Ws: three, Ops: cat([]cOp{
+				evs(6, batch...), sl(1200 * ms), acc(0, 10), acc(1, 10), acc(2, 10), tr(0, 10), sl(2200 * ms), tr(0, 10), tr(1, 10), tr(2, 10)},
+				allFilters(cItem{0, 11}, cItem{0, 12}, cItem{0, 13}, cItem{1, 12}, cItem{2, 12}),
+				[]cOp{acc(0, 10), acc(0, 11), sl(3200 * ms), tr(0, 11), flt("should", cItem{0, 12})})})
+		}
+	}
+	// the same with a record that existed but had expired when the event was first polled
+	cs = append(cs, cCase{Family: "event-polled-while-expired-then-reaccept", WindowMs: 3000, MinConf: 1, Ws: condLog, Ops: cat([]cOp{
+		acc(0, 10), acc(1, 10), sl(3500 * ms), evs(8, ev(0, 1, 1, 10, 12, 1), ev(1, 2, 2, 10, 12, 1)), sl(1200 * ms), acc(0, 10), acc(1, 10), tr(0, 10), sl(2200 * ms),
+		tr(0, 10), tr(1, 10)}, allFilters(cItem{0, 11}, cItem{0, 12}, cItem{1, 12}))})
+	// report level through a plug-in instance (any-of)
 	cs = append(cs, cCase{Family: "plugin-anyof", WindowMs: 4000, MinConf: 0, Plugin: true, Ws: three, Ops: []cOp{
 		acc(0, 10), flt("acceptrep", cItem{0, 10}, cItem{1, 7}), flt("acceptrep", cItem{0, 10}, cItem{1, 7}), flt("acceptrep", cItem{0, 9}, cItem{1, 7}, cItem{2, 3}),
 		flt("transmitrep", cItem{0, 10}, cItem{1, 7}), flt("transmitrep", cItem{0, 9}, cItem{1, 6}), flt("acceptrep"), flt("transmitrep"),
@@ -732,6 +747,17 @@ func randomCase(r *Rng, emphasizeFilters bool) cCase {
 	for len(c.Ops) < n {
 		w := r.Intn(nw)
 		k := r.Intn(100)
+		if !c.Plugin && r.Chance(1, 14) {
+			// an event that is on chain before this node accepts the report and stays in the provider's list
+			tx++
+			cur[w] += uint64(1 + r.Intn(3))
+			e := ev(w, tx, []int{1, 1, 2, 3, 4, 0}[r.Intn(6)], cur[w], cur[w]+uint64(1+r.Intn(3)), int64(c.MinConf)+int64([]int{0, 0, 1, -1}[r.Intn(4)]))
+			lastTB[w] = e.TB
+			pastEv = append(pastEv, e)
+			c.Ops = append(c.Ops, evs(3+r.Intn(5), e), sl(int64(1+r.Intn(2))*sec+int64(r.Intn(900))*ms), acc(w, cur[w]),
+				sl(int64(1+r.Intn(3))*sec+int64(r.Intn(900))*ms), tr(w, cur[w]), flt([]string{"should", "pre", "fres", "fprop"}[r.Intn(4)], cItem{W: w, Blk: uint64(int64(e.TB) + int64(r.Intn(3)) - 1)}))
+			continue
+		}
 		if emphasizeFilters && r.Bool() {
 			k = 56 + r.Intn(29) // one of the filter / hook operations
 		}
